@@ -224,6 +224,9 @@ func (r *Report) finish(id string, cfg *PropCfg, writeEvidence bool) int {
 	for st := range r.Engine.stubsUsed {
 		tb = append(tb, "stub (assumed contract): "+st)
 	}
+	for bl := range r.Engine.boundedLoops {
+		tb = append(tb, "BOUNDED loop (not a proof beyond the bound): "+bl)
+	}
 	sort.Strings(tb[len(globalTrustedBase):])
 	cov := map[string]interface{}{
 		"obligations":              proofObl,
